@@ -67,7 +67,7 @@ def grid_get(E, a, idx, node):
             return Elem(v.t, a, t, _tlen(a))
         sub = grid(E, a.shape[1:], a.lead - 1, (lambda *rest, clo=clo, t=t: clo(t, *rest)), a.kind, owner=owner_of(a),
                    fresh=a.ident in E.st.fresh)
-        sub.rowval = None
+        sub.parent = (a, t)          # a row of a nested list: stores go to the parent
         return sub
     if isinstance(idx, tuple) and len(idx) == 2 and isinstance(idx[0], slice) and idx[0] == slice(None, None, None) \
             and a.lead == 2:
@@ -289,3 +289,35 @@ def _as_opq(v):
     if is_grid(v):
         raise Unsupported('nested lazy element')
     raise Unsupported('non-opaque mapped element %r' % (v,))
+
+
+def grid_store(E, a, idx, v, node):
+    """a[idx] = v for lists / nested lists of opaque values"""
+    if not isinstance(v, Opaque):
+        raise Unsupported('store of %r into a list of opaque values' % (v,))
+    t = term_int(idx)
+    n = a.shape[0] if not isinstance(a.shape[0], int) else z3.IntVal(a.shape[0])
+    if a.lead != 1:
+        raise Unsupported('store of a whole row')
+    E.oblige('lib-pre', z3.And(t >= -n, t < n), node, 'store index in range')
+    t = z3.simplify(z3.If(t < 0, n + t, t))
+    parent = getattr(a, 'parent', None)
+    if parent is not None:
+        pa, pt = parent
+        E.mutate(pa.ident, node, 'nested list item store')
+        old = E.st.heap[pa.ident]
+        vt = v.t
+        E.st.heap[pa.ident] = lambda i, j, old=old, pt=pt, t=t, vt=vt: _opq(z3.If(z3.And(i == pt, j == t), vt, old(i, j).t))
+        return
+    E.mutate(a.ident, node, 'list item store')
+    old = E.st.heap[a.ident]
+    vt = v.t
+    E.st.heap[a.ident] = lambda i, old=old, t=t, vt=vt: _opq(z3.If(i == t, vt, old(i).t))
+
+
+ZERO_VAL = z3.Const('float_zero_placeholder', ValSort)
+
+
+def zeros_grid(E, shape):
+    """np.zeros((a, b)).tolist(): a nested list with DISTINCT row lists, filled with placeholders"""
+    return grid(E, tuple(shape), len(shape), (lambda *idx: _opq(ZERO_VAL)), 'list')
